@@ -386,9 +386,17 @@ func TestC17Child(t *testing.T) {
 
 func TestC17(t *testing.T) {
 	r := kit.Start(t, "C17", "exploration")
-	r.Rule("for honestly generated keys and signatures of ed25519, secp256r1 and BLS (messages: unsigned bytes of real transfer transactions and arbitrary byte strings incl. empty), every alternative auth encoding of a catalog is parsed and verified for the same message: all single-bit flips of the auth bytes (every bit for every second auth, a 1/8 sample otherwise), trailing/leading/truncated bytes, wrong type ids; ed25519: s+k*l for every k that fits, sign bits of R and A, y+p re-encodings where representable; secp256r1: (r,n-s), r+n/s+n where < 2^256, every public-key prefix; BLS: compression/infinity/sign flag of key and signature (sign flip = negated signature), x+p re-encodings of each field element where representable. Non-bit-flip mutants are also re-embedded into the transaction (parse + VerifyAuth, id must not change). None may verify. Plus, per honest auth: Unmarshal(Bytes()) round trip, verification after the round trip, Actor/Sponsor/factory address = type id | sha256(public key). Non-trivial = mutant that parses (reaches signature verification); distinct = (scheme, mutation, outcome).")
-	r.Assume("adversarially chosen small-order ed25519 public keys (accepted by ZIP-215 by design) are not alternative encodings of an honest signature and are out of scope", "sha256 as the address hash is taken from the documentation of codec.CreateAddress / auth.New*Address")
+	r.Rule("for honestly generated keys and signatures of ed25519, secp256r1 and BLS (messages: unsigned bytes of real transfer transactions and arbitrary byte strings incl. empty), every alternative auth encoding of a catalog is parsed and verified for the same message: all single-bit flips of the auth bytes (every bit for every second auth, a 1/8 sample otherwise), trailing/leading/truncated bytes, wrong type ids; ed25519: s+k*l for every k that fits, sign bits of R and A, y+p re-encodings where representable; secp256r1: (r,n-s), r+n/s+n where < 2^256, every public-key prefix; BLS: compression/infinity/sign flag of key and signature (sign flip = negated signature), x+p re-encodings of each field element where representable. Non-bit-flip mutants are also re-embedded into the transaction (parse + VerifyAuth, id must not change). None may verify. Plus, per honest auth: Unmarshal(Bytes()) round trip, verification after the round trip, Actor/Sponsor/factory address = type id | sha256(public key). Non-trivial = mutant that parses (reaches signature verification); distinct = (scheme, mutation, outcome). Low-S boundary part (secp256r1): for 3000 / 150000 messages a key is constructed (nonce k and s chosen, d = (s*k - z)/r mod n) such that (r, s) is a valid signature with s at a chosen position: (n-1)/2 +- {0,1,2,3, 2^j for j = 2..254}, 1, 2, n-1, n-2, 2^255 +- 1, (p-1)/2 +- 1, random offsets of every magnitude, uniform s; a math/big + crypto/elliptic reference verification confirms (r, s) and (r, n-s) are valid ECDSA, then secp256r1.Verify, auth.SECP256R1.Verify and AuthParser.Unmarshal+Verify must accept exactly the form with s <= (n-1)/2, and of the two transactions carrying the two forms at most one may verify; distinct = (position of s, outcome).")
+	r.Assume("adversarially chosen small-order ed25519 public keys (accepted by ZIP-215 by design) are not alternative encodings of an honest signature and are out of scope", "sha256 as the address hash is taken from the documentation of codec.CreateAddress / auth.New*Address", "of the two valid forms (r, s), (r, n-s) the accepted one is the low one, s <= (n-1)/2 (documented at secp256r1.Verify / BIP-62 low-S; it is the form Sign emits)")
 	if rf := r.Replay(); rf != nil && len(rf.Witness) > 0 {
+		var lw c17LowS
+		if err := json.Unmarshal(rf.Witness, &lw); err == nil && lw.Kind == c17LowSKind {
+			if judgeLowS(r, lw) == "not-constructed" {
+				r.Inconclusive("replayed low-S witness is not a valid ECDSA signature according to the reference verification")
+			}
+			r.Finish(0)
+			return
+		}
 		var c c17Case
 		if err := json.Unmarshal(rf.Witness, &c); err == nil && c.Scheme != "" && c.Mutant != "" {
 			judgeAuthMutant(r, c, "replayed")
@@ -456,6 +464,12 @@ func TestC17(t *testing.T) {
 				}
 			}(scheme, sh)
 		}
+	}
+	// low-S boundary part (secp256r1), in this process while the shards run
+	nLowS := r.N(3000, 150000)
+	runC17LowS(r, r.Rand("low-s-boundary"), nLowS)
+	if bad := r.Counter("lows_construction_not_confirmed_by_oracle"); bad != 0 || r.Counter("lows_cases") != int64(nLowS) {
+		r.Inconclusive("low-S boundary part: %d of %d constructed signatures were not confirmed by the reference ECDSA verification", bad, nLowS)
 	}
 	wg.Wait()
 	r.Finish(r.N(300, 1000))
